@@ -511,12 +511,42 @@ pub fn c15(tier: Tier) -> i32 {
     res.merge(run_cases(&ctx, 2, n_planted, |rng, i, st| c15_planted_case(rng, i, st)));
     let n_sup = ctx.scale(15_000, 1_000_000);
     res.merge(run_cases(&ctx, 3, n_sup, |rng, i, st| c15_supported_case(rng, i, st)));
+    // stream 4: the repository's own classification (match_test.rs): tu!/tr! rows must be
+    // rejected, td! rows must build, through both build paths
+    {
+        let (rows, _) = crate::corpus::match_test_rows();
+        let n = rows.len() as u64;
+        res.merge(run_cases(&ctx, 4, n, |_rng, i, st| {
+            let row = &rows[i as usize];
+            let modes = vec![scnr::ScannerMode::new("M", vec![scnr::Pattern::new(row.pattern.clone(), 1)], Vec::<(usize, usize)>::new())];
+            let case = json!({"kind": "c15", "pattern_text": row.pattern, "row_kind": format!("{:?}", row.kind)});
+            st.count("repository_rows_built");
+            match build_both(&modes) {
+                Err(pm) => CaseOutcome::Violated(Violation::new(format!("{} for pattern {:?}", pm, row.pattern), case)),
+                Ok((u, c, err)) => {
+                    let must_build = row.kind == crate::corpus::RowKind::Valid;
+                    if u != c || u != must_build {
+                        return CaseOutcome::Violated(Violation::new(
+                            format!(
+                                "repository row {:?} ({:?}): build_uncached ok = {}, build ok = {}, expected {} ({})",
+                                row.pattern, row.kind, u, c, must_build, err
+                            ),
+                            case,
+                        ));
+                    }
+                    st.nontrivial(hash_of(&row.pattern));
+                    CaseOutcome::Ok
+                }
+            }
+        }));
+    }
     let mut report = Report::new(
-        "stream 1 (in worker subprocesses, so that an abort or stack overflow is observed and attributed): token-level random strings over the regex meta-alphabet (<= 40 bytes, repetition counts with product <= 4096), placed as pattern or lookahead in the first/a later pattern of the first/a later mode; neither build nor build_uncached may panic, both must agree, and a string regex-syntax rejects must not build. stream 2: supported IR with one documented-unsupported construct (anchors, word boundaries, flags, non-greedy repetition, look-around, unknown/valued Unicode classes, syntax errors) planted at a random depth; must be rejected by both build paths (guard: the planted text must still parse to the intended unsupported node or be a syntax error). stream 3: supported-only IR incl. rich bracketed classes must build. Distinct by hash of the pattern text/configuration.",
+        "stream 4: every row of the repository's tests/match_test.rs (td! must build, tu!/tr! must be rejected); stream 1 (in worker subprocesses, so that an abort or stack overflow is observed and attributed): token-level random strings over the regex meta-alphabet (<= 40 bytes, repetition counts with product <= 4096), placed as pattern or lookahead in the first/a later pattern of the first/a later mode; neither build nor build_uncached may panic, both must agree, and a string regex-syntax rejects must not build. stream 2: supported IR with one documented-unsupported construct (anchors, word boundaries, flags, non-greedy repetition, look-around, unknown/valued Unicode classes, syntax errors) planted at a random depth; must be rejected by both build paths (guard: the planted text must still parse to the intended unsupported node or be a syntax error). stream 3: supported-only IR incl. rich bracketed classes must build. Distinct by hash of the pattern text/configuration.",
     )
     .floor("soup_builds", 20_000)
     .floor("soup_parses", 2_000)
     .floor("supported_builds", 10_000)
+    .floor("repository_rows_built", 300)
     .floor("placed_in_lookahead", 5_000)
     .floor("placed_in_non_first_mode", 5_000)
     .floor("planted_valued_class_after_supported_class_of_same_name", 500)
